@@ -133,8 +133,7 @@ func main() {
 				fmt.Fprintln(os.Stderr, "print:", err)
 				os.Exit(2)
 			}
-			rel, _ := filepath.Rel(*dir, fname)
-			dst := filepath.Join(*out, rel)
+			dst := filepath.Join(*out, strings.TrimPrefix(fname, "/"))
 			_ = os.MkdirAll(filepath.Dir(dst), 0755)
 			if old, err := os.ReadFile(dst); err != nil || !bytes.Equal(old, buf.Bytes()) {
 				if err := os.WriteFile(dst, buf.Bytes(), 0644); err != nil {
